@@ -64,6 +64,13 @@ CHECKS = {
                      "Conformance: C10_Exact (message identity, full byte equality of the re-encoded message, slices contiguous and complete), C10_NotBefore, C10_Abort, "
                      "C10_Contradiction, C11_Routing on every recv result.",
                 note="trusted: message identification by message-id + full re-encoding comparison in the harness"),
+    "C01": dict(technique="TLC model check of the delivery pipeline between Sender::send and Receiver::recv as six interleaved processes over bounded FIFOs with window and credit (E2E.tla: prefix safety, liveness under weak fairness, negative control for the buffered-before-current rule); TLC-generated covering configurations (E2EGen.tla) executed by a real client and a real listener talking through a byte tap that re-chunks both directions; recorded submit / recv / outcome order validated in TLC (E2ETrace.tla)",
+                design="4/C01",
+                text="MC: for 3-4 messages of 1-3 frames, windows 1-2, Auto(1-2), FIFO capacities 1-2, what recv has returned is always a prefix of what was submitted and eventually everything "
+                     "arrives; TLC refutes the variant that lets the current transfer overtake buffered ones. Conformance: every configuration differing from the base in at most 2 (thorough 3) of "
+                     "16 parameters (604 / 5740 runs): C01_Order, C01_Once, C01_NotBeforeSent, C01_Intact (byte-for-byte re-encoding incl. all sections) on every recv, C01_Delivers (nothing "
+                     "stalls or is lost) and C01_Outcome (every send reports accepted exactly once) at the end.",
+                note="schedules are sampled (chunk patterns, capacities, randomised select, multi-threaded runs in thorough), not enumerated; the capacity of the in-memory transport is not varied (DESIGN.md)"),
     "C02": dict(technique="TLC model check of sender-side settlement under arbitrary disposition histories (Settle.tla, safety + echo liveness); TLC-enumerated disposition / batchable-send / await scripts over two links (SettleGen.tla) and receiver-side disposal scripts (RecvGen.tla) executed lock-step; traces validated by the TLA+ observer",
                 design="4/C02",
                 text="MC: every send resolves at most once, with the first terminal state reported for its own delivery-id (pre-settled: accepted at once); settled deliveries leave the "
